@@ -923,7 +923,7 @@ fn finish(run: Run, outs: &[(String, Outcome)], extra_assumptions: Vec<String>) 
     });
     let mut a = vec![
         "depth-bounded: all histories up to the stated depth over the stated alphabet; no fixpoint claim (message counters grow without bound)".to_string(),
-        "the reference consumes the projection of the frame the real decoder returned (decoupled from C04-C10) and the real get_position for candidate positions (decoupled from C05); distances and thresholds use an exact haversine (R = 6371 km)".to_string(),
+        "the reference consumes the projection of the frame the real decoder returned (decoupled from C04-C10) and the real get_position for the candidate positions of the tracker rules (decoupled from C05); for C13 the pairing itself is additionally compared with the independent reference decoder (oracle cpr-pairing); distances and thresholds use an exact haversine (R = 6371 km)".to_string(),
         "transitions whose range / jump comparison lies within 50 m of its threshold are not taken (counted)".to_string(),
     ];
     a.extend(extra_assumptions);
